@@ -7,8 +7,14 @@
 //!   route     real schema of each CLI route              vs `route.sdl` / `route.json`
 //!   toast     real `type_system_to_ast`                  vs `roundtrip.json` / `roundtrip.ast`
 //! O (the property on the implementation): see `ocli.rs` — two CLI projects differing only in the schema file.
+#[path = "c15/catalogue.rs"]
+mod catalogue;
 #[path = "c15/json.rs"]
 mod json;
+/// the mutation operators of the operation-checker properties (C03/C04), reused for the labelled-fault catalogue
+#[allow(dead_code)]
+#[path = "opcheck/mutate.rs"]
+mod mutate;
 #[path = "c15/ocli.rs"]
 mod ocli;
 #[path = "c15/realschema.rs"]
@@ -90,6 +96,16 @@ pub fn gen_case(rng: &mut Rng, hostile: bool) -> (SchemaModel, Vec<String>) {
     let mut m = gen_schema(rng, &cfg);
     let mut feats = vec![];
     decorate(rng, &mut m, &mut feats);
+    // interfaces implementing several interfaces, an interface nobody implements, interfaces without a common object
+    // (every pair of kinds has both applicable and impossible spreads), all reachable from the query root
+    if rng.coin() {
+        feats.extend(mutate::add_interface_diamonds(rng, &mut m).into_iter().map(|f| f.replace(':', "-")));
+    }
+    // the same member names (field + argument, input field, enum value) defined differently by several types
+    if rng.coin() {
+        catalogue::add_shared_member_names(&mut m);
+        feats.push("shared-member-names".into());
+    }
     (m, feats)
 }
 
